@@ -217,6 +217,7 @@ func init() {
 		Phases: []core.Phase{
 			{Name: "stress", Race: true, Run: stressPhase(map[string]bool{"C05": true}, 0, ""), Count: tierN(1, 3)},
 			{Name: "lin", Race: true, Run: linPhase, Count: tierN(1, 2)},
+			{Name: "failover", Race: true, Run: failoverPhase, Count: tierN(1, 3)},
 		},
 	})
 	registerSim(&simSpec{
